@@ -566,6 +566,10 @@ func (st *State) writeCell(o *Obj, idx int, v Value) {
 	if o.isGlobal && st.h != nil && st.h.Name != "<init>" && st.inLibrary > 0 {
 		st.globalWrites = append(st.globalWrites, o.label)
 	}
+	if !o.isGlobal && st.inLibrary > 0 && o.epoch < st.epoch && st.epoch > 0 {
+		// library code writes to memory that existed before the current API call
+		st.sharedWrites = append(st.sharedWrites, o.label)
+	}
 	if o.frozen {
 		old := o.cells[idx]
 		same := st.valueEq(old, v)
